@@ -56,6 +56,15 @@ def guard_rules(s, lw):
     sub(r'\bmarked_ptr\s+(\w+)\s*=\s*(%s)\s*;' % alt, r'mptr \1 = G_MP(\2);', 'to_marked_ptr')
     sub(r'\bmarked_ptr\s+(\w+)\s*=', r'mptr \1 =', 'marked_ptr_decl')
     sub(r'\bfind_info\s+(\w+)\{([^{};]*)\}\s*;', r'struct find_info \1; FI_INIT(\1, \2);', 'find_info_ctor')
+    # find_info / iterator objects with value semantics (user-provided special members, operator++(int))
+    sub(r'\bfind_info\s+(\w+)\(std::move\(([\w.]+)\)\)\s*;', r'struct find_info \1; FI_MOVE_CTOR(\1, \2);', 'find_info_move_ctor')
+    sub(r'\bfind_info\s+(\w+)(?:\(([\w.]+)\)|\s*=\s*([\w.]+))\s*;', lambda m: 'struct find_info %s; FI_COPY_CTOR(%s, %s);' % (m.group(1), m.group(1), m.group(2) or m.group(3)), 'find_info_copy_ctor')
+    sub(r'(?<![\w.>])((?:\w+\.)?info)\s*=\s*std::move\(([\w.]+)\)\s*;', r'FI_MOVE_ASSIGN(\1, \2);', 'find_info_move_assign')
+    sub(r'(?<![\w.>])((?:\w+\.)?info)\s*=\s*((?:\w+\.)?info|\w+)\s*;', r'FI_COPY_ASSIGN(\1, \2);', 'find_info_copy_assign')
+    sub(r'\biterator\s+(\w+)\s*=\s*\*this\s*;', r'struct iter \1; IT_COPY_CTOR(&\1, (*self));', 'iter_copy_this')
+    sub(r'\biterator\s+(\w+)\(\*this\)\s*;', r'struct iter \1; IT_COPY_CTOR(&\1, (*self));', 'iter_copy_this')
+    sub(r'\biterator\s+(\w+)\(\*list,\s*([^;]+)\)\s*;', r'struct iter \1; IT_CONSTRUCT(&\1, list, \2);', 'iter_local_ctor')
+    sub(r'\+\+\(\*this\)\s*;|\boperator\+\+\(\)\s*;|\+\+\*this\s*;', r'IT_INC(self);', 'pre_inc_this')
     sub(r'\bbackoff\s+backoff\s*;', r'int backoff = 0;', 'backoff_decl')
     sub(r'(?<![\w.>])backoff\(\)\s*;', r'XV_BACKOFF();', 'backoff_call')
     sub(r'\bconcurrent_ptr\s*\*', r'mptr*', 'concurrent_ptr')
@@ -130,7 +139,7 @@ def retry_cut(s, lw):
 
 COMMON = dict(py_pre=pre_rules, py_post=xassert_rule,
               methods={'mark': {'info.cur': 'G_MARK', 'pos.info.cur': 'G_MARK', '*': 'MP_mark'},
-                       'get': {'info.cur': 'G_GET', 'info.save': 'G_GET', 'pos.info.cur': 'G_GET', '*': 'MP_get'},
+                       'get': {'info.cur': 'G_GET', 'info.save': 'G_GET', 'pos.info.cur': 'G_GET', 'other.info.cur': 'G_GET', '*': 'MP_get'},
                        'reset': 'G_RESET', 'reclaim': 'G_RECLAIM', 'acquire': 'G_ACQUIRE', 'acquire_if_equal': 'G_ACQUIRE_IF_EQUAL',
                        'find': 'IT_FIND'},
               calls={'marked_ptr': 'MP_make', 'compare': 'KEY_LESS'},
@@ -157,6 +166,8 @@ def _runs():
           dict(base, id='erase_it' + sfx, entry='h_erase_it', unwindset=F_ + ['hms_erase_it.0:2']),
           dict(base, id='iter_inc' + sfx, entry='h_iter_inc', unwindset=F_ + INC),
           dict(base, id='iter_copy' + sfx, entry='h_iter_copy', unwindset=F_ + INC),
+          dict(base, id='iter_postinc' + sfx, entry='h_iter_postinc', unwindset=F_ + INC),
+          dict(base, id='iter_special' + sfx, entry='h_iter_special'),
         ])
     def inter(l, tiers, sfx):
         base = dict(mode='INT', cls='shape-complete', defs={'L': l}, unwind=l + 3, tiers=tiers)
@@ -188,8 +199,7 @@ UNIT = dict(
   assumptions=['guard_ptr contract (per reclaimer, units hp/he/qsbr/lfrc/...): acquire(p) = atomic snapshot of p and protects it; acquire_if_equal(p, e) is true iff p == e at its read '
                '(then protects e, else the guard is empty); reset/destructor drop the protection; reclaim() retires the node and empties the guard; copy adds, move transfers a protection; '
                'a protected or not yet retired node is not freed',
-               'iterator(list, find_info&&) constructor, defaulted iterator copy/move: modelled member-wise (no function text to extract)',
-               'operator++(int) (copy, ++, return copy) is not lowered: it is the composition of the copy model and operator++',
+               'iterator(list, find_info&&) constructor: modelled member-wise; the defaulted iterator copy/move special members have no text: the harness models them member-wise and the engine checks on every run that they are still `= default` (XV_DEFAULTED_*), otherwise the user-provided body is lowered and verified against the member-wise contract (run iter_special)',
                'INT rely: other threads perform only legal Harris-Michael steps (insert between an unmarked node and its successor in key order, mark, unlink a marked node and retire it once, free only retired unprotected nodes); this is what the guarantee side (hms.*.commit: every successful CAS of an operation is such a legal step) establishes for every operation of this unit',
                'memory model: sequentially consistent atomics (model/xv.h); the acquire/release annotations (1)-(13) of the header are not examined by this unit',
                'Key = 8-bit integer in the model (keys are only compared; 8 bits realise every order type of the <= L+3 keys involved), compare = std::less'],
@@ -247,6 +257,35 @@ UNIT = dict(
          c_sig='static void hms_iter_inc(struct iter* self)', guards=['info.cur', 'info.save', 'tmp_guard'], members=['info', 'list'],
          pre_subst=[(r'return \*this;', 'return;', 'ret_this')],
          must_fire={'A_LOAD': 2 if INC_LOOP else 1, 'method:acquire_if_equal': 1, 'method:find': 1, 'guard:default_ctor': 1, 'guard:move_assign': 2, 'subst:ret_this': 1, 'dtor': 1, 'dtor_at_return': 1}),
+    dict(COMMON, id='iter_postinc', file=F, sig=r'auto ' + P + r'iterator::operator\+\+\(int\) -> iterator',
+         c_sig='static void hms_iter_postinc(struct iter* self, struct iter* ret)', members=['info', 'list'],
+         guards=['info.cur', 'info.save', 'retval.info.cur', 'retval.info.save', 'tmp.info.cur', 'tmp.info.save', 'result.info.cur', 'result.info.save'],
+         pre_subst=[(r'return (retval|tmp|result|old|copy);', r'{ IT_MOVE_CTOR(ret, \1); return; }', 'ret_local')],
+         must_fire={'guard:iter_copy_this': 1, 'guard:pre_inc_this': 1, 'subst:ret_local': 1, 'dtor': 1, 'dtor_at_return': 1}),
+    dict(COMMON, id='iter_reset', file=F, sig=r'void reset\(\)', c_sig='static void hms_iter_reset(struct iter* self)', members=['info'],
+         must_fire={'method:reset': 2}),
+    dict(COMMON, id='iter_eq', file=F, sig=r'bool operator==\(const iterator& other\) const', c_sig='static _Bool hms_iter_eq(const struct iter* self, const struct iter* other_p)',
+         ret_type='_Bool', members=['info'], post_subst=[(r'(?<![\w.>])other\b', '(*other_p)', 'ref:other')], must_fire={'method:get': 2}),
+    # the four special member functions of the iterator: `= default` in the pinned text (member-wise, modelled in harness.c); a user-provided body is lowered and
+    # checked against the same member-wise contract (run iter_special)
+    dict(COMMON, id='iter_copy_assign', file=F, sig=r'iterator& operator=\(const iterator&\s*(?:other|rhs|o|that|src|it|x)?\)', defaultable=True,
+         c_sig='static void hms_iter_copy_assign(struct iter* self, struct iter* other_p)', members=['info', 'list'],
+         guards=['info.cur', 'info.save', 'other.info.cur', 'other.info.save', 'tmp.cur', 'tmp.save'],
+         pre_subst=[(r'\b(rhs|o|that|src|it|x)\b(?=\.|\)|;)', 'other', 'param_name'), (r'return \*this;', 'return;', 'ret_this')],
+         post_subst=[(r'(?<![\w.>])other\b', '(*other_p)', 'ref:other')]),
+    dict(COMMON, id='iter_move_assign', file=F, sig=r'iterator& operator=\(iterator&&\s*(?:other|rhs|o|that|src|it|x)?\)', defaultable=True,
+         c_sig='static void hms_iter_move_assign(struct iter* self, struct iter* other_p)', members=['info', 'list'],
+         guards=['info.cur', 'info.save', 'other.info.cur', 'other.info.save', 'tmp.cur', 'tmp.save'],
+         pre_subst=[(r'\b(rhs|o|that|src|it|x)\b(?=\.|\)|;)', 'other', 'param_name'), (r'return \*this;', 'return;', 'ret_this')],
+         post_subst=[(r'(?<![\w.>])other\b', '(*other_p)', 'ref:other')]),
+    dict(COMMON, id='iter_copy_ctor', file=F, sig=r'iterator\(const iterator&\s*(?:other|rhs|o|that|src|it|x)?\)', defaultable=True, ctor=True,
+         c_sig='static void hms_iter_copy_ctor(struct iter* self, struct iter* other_p)', members=['info', 'list'],
+         guards=['info.cur', 'info.save', 'other.info.cur', 'other.info.save'],
+         pre_subst=[(r'\b(rhs|o|that|src|it|x)\b(?=\.|\)|;)', 'other', 'param_name')], post_subst=[(r'(?<![\w.>])other\b', '(*other_p)', 'ref:other')]),
+    dict(COMMON, id='iter_move_ctor', file=F, sig=r'iterator\(iterator&&\s*(?:other|rhs|o|that|src|it|x)?\)', defaultable=True, ctor=True,
+         c_sig='static void hms_iter_move_ctor(struct iter* self, struct iter* other_p)', members=['info', 'list'],
+         guards=['info.cur', 'info.save', 'other.info.cur', 'other.info.save'],
+         pre_subst=[(r'\b(rhs|o|that|src|it|x)\b(?=\.|\)|;)', 'other', 'param_name')], post_subst=[(r'(?<![\w.>])other\b', '(*other_p)', 'ref:other')]),
     # ---- the same source texts once more, with the retry loops cut by invariants (used by the INT runs only)
     dict(COMMON, cut_loops={0: 'FINDLOOP'}, py_post=retry_cut, id='find_cut', file=F, sig=r'bool ' + P + r'find\(const Key& key, find_info& info, backoff& backoff\)',
          c_sig='static _Bool hms_find_cut(struct hms* self, hkey key, struct find_info* info_p, int* backoff_p)', ret_type='_Bool',
@@ -328,6 +367,9 @@ UNIT = dict(
     'hms.iter.erase.guards': dict(deciding=False, text="after erase(iterator) only the argument's original and the returned iterator hold guards"),
     'hms.iter.erase.safe': dict(deciding=True, text='erase(iterator) dereferences only protected nodes'),
     'hms.guard.raw_pinned': dict(deciding=True, text='a guard_ptr built from a raw pointer (no validation possible) protects its node only if the node is pinned at that moment: null, own unpublished node, already protected by a live guard of this thread, or the frozen successor of a guarded node that is still linked; a guard built from an unpinned pointer is never dereferenced, retired through or returned (erase(iterator): the successor guard must be taken BEFORE the unlink CAS) [SEQ and INT]'),
+    'hms.iter.postinc.copy': dict(deciding=True, text='operator++(int) returns a full, independently protected copy of the position before the increment (same list, prev, cur and save, each with its own guard) and advances *this exactly as operator++ does'),
+    'hms.iter.special.memberwise': dict(deciding=True, text='copy construction / assignment give the target the source position (list, prev, cur, save) with its own protection and leave the source unchanged; move construction / assignment transfer position and protection; the old protections of an assigned-to iterator are released; self-assignment changes nothing; protection counts are exact'),
+    'hms.iter.reset.releases': dict(deciding=True, text='reset() releases both guards (the iterator compares equal to end()) and touches nothing else; operator== compares the current nodes only'),
     'hms.iter.copy.independent': dict(deciding=True, text='copies / moved iterators are independently protected: advancing one leaves the other dereferenceable and well-formed'),
   },
   replays={
@@ -341,7 +383,7 @@ UNIT = dict(
     # F11: the schedule needs the hook between the two reads of cur->next in operator++ (units/hms/hook_f11.diff); without the hook the program exits 2
     'hms.iter.inc.progress': dict(src='native_f11.cpp', no_inputs=True),
   },
-  canaries=['find.true', 'find.false_end', 'find.false_greater', 'find.unlinked_two', 'find.restart_from_head', 'find.mid_start', 'find.start_unlinked', 'contains.true', 'contains.false', 'contains.helped', 'find_key.found', 'find_key.end', 'begin.empty', 'begin.nonempty', 'insert.true', 'insert.false', 'insert.at_head', 'insert.at_tail', 'insert.helped', 'emplace.true', 'emplace.false', 'erase.true', 'erase.false', 'erase.second_after_true', 'erase.helped', 'inc.fast', 'inc.fast_to_marked_successor', 'inc.fast_to_end', 'inc.cur_marked_linked', 'inc.cur_unlinked', 'inc.key_reinserted', 'inc.save_marked', 'inc.pred_changed', 'erase_it.direct', 'erase_it.refind', 'erase_it.cur_marked_linked', 'erase_it.cur_unlinked', 'erase_it.to_end', 'erase_it.to_marked_successor', 'erase_it.raw_guard_pinned', 'erase_it.raw_guard_unpinned_dropped', 'erase_it_int.raw_guard_pinned', 'copy.advanced', 'find_int.true', 'find_int.false_end', 'find_int.false_greater', 'insert_int.true', 'insert_int.false', 'erase_int.unlinked_by_helper', 'erase_int.unlinked_self', 'erase_int.false', 'erase_it_int.direct', 'erase_it_int.refind', 'erase_it_int.marked_by_other', 'inc_int.fast', 'inc_int.slow', 'inc_int.end'],
+  canaries=['find.true', 'find.false_end', 'find.false_greater', 'find.unlinked_two', 'find.restart_from_head', 'find.mid_start', 'find.start_unlinked', 'contains.true', 'contains.false', 'contains.helped', 'find_key.found', 'find_key.end', 'begin.empty', 'begin.nonempty', 'insert.true', 'insert.false', 'insert.at_head', 'insert.at_tail', 'insert.helped', 'emplace.true', 'emplace.false', 'erase.true', 'erase.false', 'erase.second_after_true', 'erase.helped', 'inc.fast', 'inc.fast_to_marked_successor', 'inc.fast_to_end', 'inc.cur_marked_linked', 'inc.cur_unlinked', 'inc.key_reinserted', 'inc.save_marked', 'inc.pred_changed', 'erase_it.direct', 'erase_it.refind', 'erase_it.cur_marked_linked', 'erase_it.cur_unlinked', 'erase_it.to_end', 'erase_it.to_marked_successor', 'erase_it.raw_guard_pinned', 'erase_it.raw_guard_unpinned_dropped', 'erase_it_int.raw_guard_pinned', 'copy.advanced', 'postinc.slow', 'postinc.fast', 'special.copy_assign', 'special.move_assign', 'find_int.true', 'find_int.false_end', 'find_int.false_greater', 'insert_int.true', 'insert_int.false', 'erase_int.unlinked_by_helper', 'erase_int.unlinked_self', 'erase_int.false', 'erase_it_int.direct', 'erase_it_int.refind', 'erase_it_int.marked_by_other', 'inc_int.fast', 'inc_int.slow', 'inc_int.end'],
 )
 # development aid for mutation testing only: let mutants that change a rule count reach the obligations instead of stopping at 'extraction broke'
 if os.environ.get('HMS_NO_MUSTFIRE'):
